@@ -66,12 +66,12 @@ type Profile struct {
 	PStartOffline  int // % chance that a target is offline at the start
 	PDevFault      int // % chance of a transient device fault burst after a step
 	PCrash         int // % chance that the scenario contains one crash
-	PSlowPlugin    int  // % of model-plugin validations that stall for 5..40 ms (one target's validation much slower than another's)
-	PStoreFault    int  // per-mille probability that a controller's store call fails with a transient error
-	PCreateFault   int  // per-cent probability that a controller's proposal Create fails with a transient error (cuts a transaction's initialisation pass short between two targets)
+	PSlowPlugin    int // % of model-plugin validations that stall for 5..40 ms (one target's validation much slower than another's)
+	PStoreFault    int // per-mille probability that a controller's store call fails with a transient error
+	PCreateFault   int // per-cent probability that a controller's proposal Create fails with a transient error (cuts a transaction's initialisation pass short between two targets)
 	AllowClash     bool
 	RejectCode     codes.Code // gRPC code the device answers a refused value with (default InvalidArgument)
-	Paths          string // "basic" (few paths, many overwrites) | "rich"
+	Paths          string     // "basic" (few paths, many overwrites) | "rich"
 }
 
 // leaf and delete path pools
